@@ -15,6 +15,10 @@ import Desync.Model.ReadSeeker
 import Desync.Model.Sparse
 import Desync.Model.HttpHandler
 import Desync.Model.LocalStore
+import Desync.Model.Dedup
+import Desync.Model.Pool
+import Desync.Model.Chain
+import Desync.Model.Http
 
 namespace Driver
 open Desync
@@ -415,6 +419,106 @@ def cmdPruneRun (a : Args) : String :=
   | .ok d => "ok " ++ filesStr d
   | .failed d => "failed " ++ filesStr d
 
+/-- `dedup.accept ids=1,1,2 events=c:0,c:1,u:0:7,m:0,d:0,w:1` : validate an event trace recorded
+    from the implementation against the machine; prints the kind each `call` resolved to and
+    every caller's final state -/
+def cmdDedupAccept (a : Args) : String :=
+  let ids := natList (a.get "ids")
+  let evs := if (a.get "events").isEmpty then [] else (a.get "events").splitOn ","
+  let parseEv (e : String) : Option Dedup.Ev :=
+    match e.splitOn ":" with
+    | ["c", t] => t.toNat?.map .call
+    | ["u", t, v] => do let t ← t.toNat?; let v ← v.toNat?; pure (.upRet t v)
+    | ["m", t] => t.toNat?.map .markDone
+    | ["d", t] => t.toNat?.map .delete
+    | ["w", t] => t.toNat?.map .wake
+    | _ => none
+  let rec go (s : Dedup.St) (es : List String) (k : Nat) (kinds : List String) : String :=
+    match es with
+    | [] =>
+      let fin := s.callers.map fun c => match c with
+        | .returned v _ => s!"ret:{v}"
+        | .start _ => "start" | .upstream _ => "upstream" | .got _ _ => "got"
+        | .published _ _ => "published" | .follower _ => "follower"
+      "accept kinds=" ++ String.intercalate "" kinds.reverse ++ " final=" ++ String.intercalate "," fin
+    | e :: rest =>
+      match parseEv e with
+      | none => s!"bad-op@{k}"
+      | some ev =>
+        match Dedup.step s ev with
+        | none => s!"reject@{k}:{e}"
+        | some s' =>
+          let kinds' := match ev with
+            | .call t => (match s'.callers[t]? with | some (.follower _) => "F" | _ => "L") :: kinds
+            | _ => kinds
+          go s' rest (k + 1) kinds'
+  go (Dedup.St.init ids) evs 0 []
+
+/-- leaves: `id:tag:valid.id:tag:valid/1.4/1;…` (content / fault call numbers / verify) -/
+def parseLeaves (s : String) : List Chain.Leaf :=
+  if s.isEmpty then [] else
+  (s.splitOn ";").map fun l =>
+    match l.splitOn "/" with
+    | [content, faults, verify] =>
+      let objs := if content.isEmpty then [] else (content.splitOn ".").filterMap fun o =>
+        match o.splitOn ":" with
+        | [id, tag, v] => some (id.toNat?.getD 0, (⟨tag.toNat?.getD 0, v == "1"⟩ : Chain.Obj))
+        | _ => none
+      let fs := if faults.isEmpty then [] else (faults.splitOn ".").filterMap String.toNat?
+      { content := objs, faults := fs, verify := verify == "1" }
+    | _ => { content := [], faults := [] }
+
+def chainR : Chain.R → String
+  | .chunk t v => s!"c:{t}:{if v then 1 else 0}"
+  | .missing => "m" | .invalid => "i" | .fail => "f"
+
+/-- `chain.ops groups=0.1|2 cache=3:1|- leaves=… ops=G1,H2,…` -/
+def cmdChainOps (a : Args) : String :=
+  let groups := if (a.get "groups").isEmpty then [] else
+    ((a.get "groups").splitOn "|").map fun g => (g.splitOn ".").filterMap String.toNat?
+  let cache : Option (Nat × Bool) :=
+    match (a.get "cache").splitOn ":" with
+    | [c, r] => c.toNat?.map fun c => (c, r == "1")
+    | _ => none
+  let cfg : Chain.Cfg := { groups, cache }
+  let w0 : Chain.World := { leaves := parseLeaves (a.get "leaves"), active := List.replicate groups.length 0 }
+  let ops := if (a.get "ops").isEmpty then [] else (a.get "ops").splitOn ","
+  let (w, out) := ops.foldl (fun (acc : Chain.World × List String) op =>
+    let (w, out) := acc
+    let id := ((op.drop 1).toString).toNat?.getD 0
+    if op.startsWith "G" then
+      let (r, w') := Chain.getChunk cfg w id
+      (w', out ++ [chainR r])
+    else
+      let (r, w') := Chain.hasChunk cfg w id
+      (w', out ++ [match r with | some true => "t" | some false => "n" | none => "e"])) (w0, [])
+  let logs := w.leaves.map fun l => String.intercalate "." (l.log.reverse.map fun (o, id) => s!"{o.take 1}{id}")
+  String.intercalate "," out ++ " logs=" ++ String.intercalate ";" logs ++ " active=" ++
+    String.intercalate "." (w.active.map toString)
+
+def parseResps (s : String) : List Http.Resp :=
+  if s.isEmpty then [] else
+  (s.splitOn ",").map fun r =>
+    match r.splitOn ":" with
+    | [c, b] => match c.toNat? with
+      | some n => .status n ((ofHex b).getD [])
+      | none => .transportErr
+    | [c] => match c.toNat? with
+      | some n => .status n []
+      | none => .transportErr
+    | _ => .transportErr
+
+/-- `http.retry op=get|has|store retry= resps=503,err,200:hex` -/
+def cmdHttpRetry (a : Args) : String :=
+  let rs := parseResps (a.get "resps")
+  let retry := a.nat "retry"
+  let attempts := (Http.issueRetryable retry rs).2
+  let res := match a.get "op" with
+    | "get" => (match Http.getObject retry rs with | .ok b => "ok:" ++ toHex b | .missing => "missing" | .error => "error")
+    | "has" => (match Http.hasChunk retry rs with | .present => "present" | .absent => "absent" | .error => "error")
+    | _ => if Http.storeObject retry rs then "stored" else "error"
+  s!"{res} attempts={attempts}"
+
 def runLine (l : String) : String :=
   match l.splitOn " " with
   | [] => "bad-op"
@@ -426,6 +530,9 @@ def runLine (l : String) : String :=
     | "chunk.all" => cmdChunkAll a
     | "hash" => cmdHash a
     | "ip.ops" => cmdIpOps a
+    | "http.retry" => cmdHttpRetry a
+    | "chain.ops" => cmdChainOps a
+    | "dedup.accept" => cmdDedupAccept a
     | "store.name" => cmdStoreName a
     | "prune.classify" => cmdPruneClassify a
     | "prune.run" => cmdPruneRun a
